@@ -44,6 +44,51 @@ type Program struct {
 // Load loads the packages of the repository at dir (patterns relative to it),
 // with the harness files overlaid into the package directories:
 // overlay maps a virtual file path (inside dir) to the real file.
+// LoadTolerant loads like Load but survives harness files that no longer type-check against
+// the code under test (a change of representation the in-package harness relied on): overlay
+// files in which the type checker reports errors are left out - and, repeatedly, those that
+// depended on them - as long as every error lies in an overlay file that is not in keep.
+// The virtual paths left out are returned; their harnesses are unavailable for this run.
+func LoadTolerant(dir string, patterns []string, overlay map[string]string, keep func(virt string) bool) (*Program, []string, error) {
+	cur := map[string]string{}
+	for k, v := range overlay {
+		cur[k] = v
+	}
+	var dropped []string
+	for {
+		p, err := Load(dir, patterns, cur)
+		if err == nil {
+			sort.Strings(dropped)
+			return p, dropped, nil
+		}
+		le, ok := err.(*loadErrors)
+		if !ok {
+			return nil, dropped, err
+		}
+		bad := map[string]bool{}
+		for _, pos := range le.files {
+			if _, isOv := cur[pos]; !isOv || (keep != nil && keep(pos)) {
+				return nil, dropped, err
+			}
+			bad[pos] = true
+		}
+		if len(bad) == 0 {
+			return nil, dropped, err
+		}
+		for f := range bad {
+			delete(cur, f)
+			dropped = append(dropped, f)
+		}
+	}
+}
+
+type loadErrors struct {
+	msgs  []string
+	files []string // file of every error ("" when unknown)
+}
+
+func (e *loadErrors) Error() string { return "package load errors:\n" + strings.Join(e.msgs, "\n") }
+
 func Load(dir string, patterns []string, overlay map[string]string) (*Program, error) {
 	ov := map[string][]byte{}
 	for virt, real := range overlay {
@@ -63,14 +108,19 @@ func Load(dir string, patterns []string, overlay map[string]string) (*Program, e
 	if err != nil {
 		return nil, err
 	}
-	var errs []string
+	le := &loadErrors{}
 	packages.Visit(initial, nil, func(p *packages.Package) {
 		for _, e := range p.Errors {
-			errs = append(errs, e.Error())
+			le.msgs = append(le.msgs, e.Error())
+			f := e.Pos
+			if i := strings.Index(f, ":"); i >= 0 {
+				f = f[:i]
+			}
+			le.files = append(le.files, f)
 		}
 	})
-	if len(errs) > 0 {
-		return nil, fmt.Errorf("package load errors:\n%s", strings.Join(errs, "\n"))
+	if len(le.msgs) > 0 {
+		return nil, le
 	}
 	prog, pkgs := ssautil.AllPackages(initial, ssa.InstantiateGenerics)
 	prog.Build()
